@@ -221,6 +221,47 @@ def plans_part(ctx, cands, fresh, good, rng):
         jobs.append(("scripts:directory-already-on-the-path", os.path.join(pd, "spec.json"), pd, None,
                      {"PYTHONPATH": "<dir>/lib", "lib/shared_ops.py": "...", "lib/prog_one.py": "compiled first", "app/prog_two.py": "imports shared_ops too"}, os.path.join(pd, "lib")))
         jobs.append(("scripts-alone:directory-already-on-the-path", os.path.join(pd, "spec_alone.json"), pd, None, {}, os.path.join(pd, "lib")))
+        # two programs share a library module that lives outside their directories (on PYTHONPATH) and defines nada
+        # functions at module level: it stays imported, its functions were traced during the first compilation
+        pd = os.path.join(d, "shared-library-with-module-level-functions")
+        for sub in ("lib", "one", "two", "alone"):
+            os.makedirs(os.path.join(pd, sub), exist_ok=True)
+        LIB_FNS = ('"""Functions shared by several programs."""\nfrom nada_dsl import *\n\n\n@nada_fn\ndef add(a: SecretInteger, b: SecretInteger) -> SecretInteger:\n'
+                   '    return a + b\n\n\n@nada_fn\ndef twice(a: SecretInteger) -> SecretInteger:\n    return a * Integer(2)\n')
+        LIB_P1 = ("from nada_dsl import *\nfrom shared_fns import add\n\n\ndef nada_main():\n    p = Party(name='P0')\n"
+                  "    xs = Array(SecretInteger(Input(name='xs', party=p)), size=3)\n    z = SecretInteger(Input(name='z', party=p))\n"
+                  "    return [Output(xs.reduce(add, z), 'total', p)]\n")
+        LIB_P2 = ("from nada_dsl import *\nfrom shared_fns import twice, add\n\n\ndef nada_main():\n    q = Party(name='P1')\n"
+                  "    ys = Array(SecretInteger(Input(name='ys', party=q)), size=4)\n    z = SecretInteger(Input(name='z', party=q))\n"
+                  "    zs = ys.map(twice)\n    return [Output(zs.reduce(add, z), 'out', q)]\n")
+        open(os.path.join(pd, "lib", "shared_fns.py"), "w").write(LIB_FNS)
+        open(os.path.join(pd, "one", "first.py"), "w").write(LIB_P1)
+        open(os.path.join(pd, "two", "second.py"), "w").write(LIB_P2)
+        json.dump({"plan": [["script", os.path.join(pd, "one", "first.py"), "one"], ["script", os.path.join(pd, "two", "second.py"), "two"]], "report": "two"},
+                  open(os.path.join(pd, "spec.json"), "w"))
+        json.dump({"plan": [["script", os.path.join(pd, "two", "second.py"), "two"]], "report": "two"}, open(os.path.join(pd, "spec_alone.json"), "w"))
+        jobs.append(("scripts:shared-library-with-module-level-functions", os.path.join(pd, "spec.json"), pd, None,
+                     {"PYTHONPATH": "<dir>/lib", "lib/shared_fns.py": LIB_FNS, "one/first.py (compiled first)": LIB_P1, "two/second.py": LIB_P2}, os.path.join(pd, "lib")))
+        jobs.append(("scripts-alone:shared-library-with-module-level-functions", os.path.join(pd, "spec_alone.json"), pd, None, {}, os.path.join(pd, "lib")))
+        # one program compiled twice, its HELPER edited in between (the program file itself is untouched)
+        pd = os.path.join(d, "helper-edited-between-two-compilations")
+        os.makedirs(os.path.join(pd, "p"), exist_ok=True)
+        os.makedirs(os.path.join(pd, "alone", "p"), exist_ok=True)
+        PAY = ("from nada_dsl import *\nfrom formulas import yearly\n\n\ndef nada_main():\n    p = Party(name='P0')\n"
+               "    base = SecretInteger(Input(name='base', party=p))\n    bonus = SecretInteger(Input(name='bonus', party=p))\n"
+               "    return [Output(yearly(base, bonus), 'pay', p)]\n")
+        FORM_V1 = "from nada_dsl import *\n\n\ndef yearly(base, bonus):\n    return base + bonus\n"
+        FORM_V2 = "from nada_dsl import *\n\n\ndef yearly(base, bonus):\n    return base * Integer(12) + bonus * bonus\n"
+        open(os.path.join(pd, "p", "payroll.py"), "w").write(PAY)
+        open(os.path.join(pd, "p", "formulas.py"), "w").write(FORM_V1)
+        open(os.path.join(pd, "alone", "p", "payroll.py"), "w").write(PAY)
+        open(os.path.join(pd, "alone", "p", "formulas.py"), "w").write(FORM_V2)
+        json.dump({"plan": [["script", os.path.join(pd, "p", "payroll.py"), "v1"], ["write", os.path.join(pd, "p", "formulas.py"), FORM_V2],
+                            ["script", os.path.join(pd, "p", "payroll.py"), "v2"]], "report": "v2"}, open(os.path.join(pd, "spec.json"), "w"))
+        json.dump({"plan": [["script", os.path.join(pd, "alone", "p", "payroll.py"), "v2"]], "report": "v2"}, open(os.path.join(pd, "spec_alone.json"), "w"))
+        jobs.append(("scripts:helper-edited-between-two-compilations", os.path.join(pd, "spec.json"), pd, None,
+                     {"p/payroll.py (compiled twice, untouched)": PAY, "p/formulas.py (first)": FORM_V1, "p/formulas.py (then)": FORM_V2}))
+        jobs.append(("scripts-alone:helper-edited-between-two-compilations", os.path.join(pd, "spec_alone.json"), pd, None, {}))
         # a file compiled (and failing), edited, compiled again under the same path in the same process
         pd = os.path.join(d, "rewritten-after-failure")
         os.makedirs(os.path.join(pd, "p"), exist_ok=True)
@@ -294,7 +335,8 @@ def plans_part(ctx, cands, fresh, good, rng):
             "helper-of-a-program-that-raised", "file-rewritten-after-a-failed-compilation",
             "string-without-entry-point-after-one-with", "string-using-a-name-of-an-earlier-string", "string-after-another-string",
             "directory-already-on-the-path", "returned-mir-held-while-another-program-compiles",
-            "file-rewritten-same-size-bytecode-cache-on")
+            "file-rewritten-same-size-bytecode-cache-on", "shared-library-with-module-level-functions",
+            "helper-edited-between-two-compilations")
     items = [f"({mirprint.g_ioutcome(sc['scripts:' + t][1])}, {mirprint.g_ioutcome(sc['scripts-alone:' + t][1])})" for t in tags]
     text = (progrun.HEAD + "From NadaV.Spec Require Import MirSpec Equiv.\n"
             "Definition cases : list (ioutcome * ioutcome) :=\n  [" + ";\n   ".join(items) + "].\n"
